@@ -106,6 +106,16 @@ def hist (e : Env) (piece to_ : Nat) : Int := e.history.getD (piece * 64 + to_) 
 
 def firstWordLower (l : String) : String := ((l.splitOn " ").headD "").toLower
 
+/-- what `poll_input` does with an input line -/
+inductive LineKind | isready | stop | other
+  deriving DecidableEq, Repr
+
+def classifyLine (l : String) : LineKind :=
+  match firstWordLower l with
+  | "isready" => .isready
+  | "stop" => .stop
+  | _ => .other
+
 /-- `poll_input`: nothing once stopping; else the deadline; else at most one input line -
     `isready` is answered and the search goes on, `stop` stops, anything else stops and is deferred -/
 def poll (cfg : Cfg) (e : Env) : Env :=
@@ -119,10 +129,10 @@ def poll (cfg : Cfg) (e : Env) : Env :=
   | l :: rest =>
     let l := l.trimAscii.toString
     let e := { e with chan := rest }
-    match firstWordLower l with
-    | "isready" => e.print "readyok"
-    | "stop" => { e with stopping := true }
-    | _ => { e with deferred := e.deferred ++ [l], stopping := true }
+    match classifyLine l with
+    | .isready => e.print "readyok"
+    | .stop => { e with stopping := true }
+    | .other => { e with deferred := e.deferred ++ [l], stopping := true }
 
 /-- `if envir.nodes & INPUT_POLL_INTERVAL == 0 { poll_input() }` (plus the verification-only extra points) -/
 def maybePoll (cfg : Cfg) (e : Env) : Env :=
@@ -130,16 +140,19 @@ def maybePoll (cfg : Cfg) (e : Env) : Env :=
   let extra := match cfg.subMask with | some m => e.nodes &&& m == 0 | none => false
   if real || extra then e.poll cfg else e
 
-/-- `insert_pv_node` -/
-def insertPv (cfg : Cfg) (e : Env) (m : Move) : Env :=
-  let ply := e.ply
-  let e := if e.stopping then { e with postStopWrites := e.postStopWrites + 1 } else e
-  let e := e.ev cfg [7, ply.toUInt64, m.data.toUInt64] (fun _ => s!"pv {ply} {m.hex}")
-  let pv := e.pv.setIfInBounds (ply * 64 + ply) m
-  let n := e.pvLen.getD (ply + 1) 0
+/-- the table update of `insert_pv_node`: the move, then the child's row behind it, and the row length -/
+def pvInsert (pv : Array Move) (pvLen : Array Nat) (ply : Nat) (m : Move) : Array Move × Array Nat :=
+  let pv := pv.setIfInBounds (ply * 64 + ply) m
+  let n := pvLen.getD (ply + 1) 0
   let pv := (List.range (n - (ply + 1))).foldl
     (fun pv i => let c := ply + 1 + i; pv.setIfInBounds (ply * 64 + c) (pv.getD ((ply + 1) * 64 + c) Move.null)) pv
-  { e with pv := pv, pvLen := e.pvLen.setIfInBounds ply n }
+  (pv, pvLen.setIfInBounds ply n)
+
+/-- `insert_pv_node` -/
+def insertPv (cfg : Cfg) (e : Env) (m : Move) : Env :=
+  let e := if e.stopping then { e with postStopWrites := e.postStopWrites + 1 } else e
+  let e := e.ev cfg [7, e.ply.toUInt64, m.data.toUInt64] (fun _ => s!"pv {e.ply} {m.hex}")
+  { e with pv := (pvInsert e.pv e.pvLen e.ply m).1, pvLen := (pvInsert e.pv e.pvLen e.ply m).2 }
 
 def ttRecord (cfg : Cfg) (e : Env) (key : UInt64) (score : Int) (depth : Nat) (flag : Flag) : Env :=
   let e := if e.stopping then { e with postStopWrites := e.postStopWrites + 1 } else e
@@ -279,57 +292,81 @@ def moveLoop (R : Rules) (cfg : Cfg) (rec : Game → Nat → Int → Int → Env
 
 def qFuel : Nat := Gen.MAX_PLY + 6
 
+/-- null-move pruning: a pass, searched with a null window at reduced depth; `some v` = return `v` at once -/
+def nullMoveStep (R : Rules) (rec : Game → Nat → Int → Int → Env → Int × Env) (g : Game) (nDepth : Nat) (inCheck : Bool)
+    (beta : Int) (e : Env) : Option Int × Env :=
+  if nDepth >= 3 && !inCheck && e.ply > 0 then
+    let c := R.nullMove g
+    let e := { e with ply := e.ply + 1 }
+    let (s, e) := rec c (nDepth - 1 - 2) (-beta) (-beta + 1) e
+    let score := -s
+    let e := { e with ply := e.ply - 1 }
+    if e.stopping then (some 0, e)
+    else if score >= beta then (some beta, e)
+    else (none, e)
+  else (none, e)
+
+/-- the end of `negamax` after the move loop: mate / stalemate verdict, or the table record -/
+def finish (cfg : Cfg) (g : Game) (depth : Nat) (inCheck : Bool) : LoopOut × Env → Int × Env
+  | (.ret v, e) => (v, e)
+  | (.done ta flag legal, e) =>
+    if legal == 0 then
+      let e := e.ev cfg [5, e.ply.toUInt64, g.key, b2w inCheck]
+        (fun _ => s!"verdict {e.ply} {hex16 g.key} {if inCheck then "mate" else "stalemate"}")
+      (if inCheck then -Gen.MATE_VALUE + e.ply else 0, e)
+    else
+      let e := e.ttRecord cfg g.key ta depth flag
+      (ta, e)
+
+/-- generate, order and search the moves of a node -/
+def searchMoves (R : Rules) (cfg : Cfg) (rec : Game → Nat → Int → Int → Env → Int × Env) (g : Game)
+    (depth nDepth : Nat) (inCheck : Bool) (alpha beta : Int) (e : Env) : Int × Env :=
+  let ms := R.generate g true
+  let e := if e.followPv then enablePvScoring ms e else e
+  let sm := sortMoves g ms e
+  finish cfg g depth inCheck (moveLoop R cfg rec g depth nDepth inCheck beta sm.1 alpha .alpha 0 0 sm.2)
+
+/-- a node that is really expanded: count it, try the null move, then the moves -/
+def expand (R : Rules) (cfg : Cfg) (rec : Game → Nat → Int → Int → Env → Int × Env) (g : Game)
+    (depth : Nat) (alpha beta : Int) (e : Env) : Int × Env :=
+  let e := { e with nodes := e.nodes + 1 }
+  let inCheck := R.inCheck g
+  let nDepth := if inCheck then depth + 1 else depth
+  match nullMoveStep R rec g nDepth inCheck beta e with
+  | (some v, e) => (v, e)
+  | (none, e) => searchMoves R cfg rec g depth nDepth inCheck alpha beta e
+
+/-- after the repetition test and the table probe: reset the PV row, ply cap, poll, horizon -/
+def afterProbe (R : Rules) (cfg : Cfg) (rec : Game → Nat → Int → Int → Env → Int × Env) (g : Game)
+    (depth : Nat) (alpha beta : Int) (e : Env) : Int × Env :=
+  let e := { e with pvLen := e.pvLen.setIfInBounds e.ply e.ply }
+  if e.ply >= Gen.MAX_PLY - 1 then (R.evaluate g, e) else
+  let e := e.maybePoll cfg
+  if depth == 0 || g.halfMoves == 100 then quiescence R cfg qFuel g alpha beta e
+  else expand R cfg rec g depth alpha beta e
+
+/-- the draw-by-repetition return (fix f05efd1: first, and on the node's own key) -/
+def repReturn (cfg : Cfg) (g : Game) (e : Env) : Int × Env :=
+  let e := e.ev cfg [3, e.ply.toUInt64, g.key, e.rep.table.getD e.rep.index 0]
+    (fun _ => s!"rep {e.ply} {hex16 g.key} {hex16 (e.rep.table.getD e.rep.index 0)}")
+  (0, { e with pvLen := e.pvLen.setIfInBounds e.ply e.ply })
+
+/-- the transposition-table return -/
+def ttReturn (cfg : Cfg) (g : Game) (probed : Int) (e : Env) : Int × Env :=
+  let e := e.ev cfg [4, e.ply.toUInt64, g.key, i2w probed] (fun _ => s!"tthit {e.ply} {hex16 g.key} {probed}")
+  (probed, { e with ttHits := e.ttHits + 1 })
+
+/-- what the table says about this node (`UNKNOWN_SCORE` at the root and at PV nodes, which are never probed) -/
+def probeNode (cfg : Cfg) (g : Game) (depth : Nat) (alpha beta : Int) (e : Env) : Int :=
+  if e.ply != 0 && !(beta - alpha > 1) then e.ttProbe cfg g.key depth alpha beta else Gen.UNKNOWN_SCORE
+
 def negamax (R : Rules) (cfg : Cfg) : Nat → Game → Nat → Int → Int → Env → Int × Env
   | 0, _, _, alpha, _, e => (alpha, e)     -- out of fuel: unreachable (`Lemmas/Fuel`)
   | fuel + 1, g, depth, alpha, beta, e =>
     let e := e.onNode cfg 1 g depth alpha beta
-    let isPv := beta - alpha > 1
-    -- repetition first (fix f05efd1), on the node's own key
-    if e.ply > 0 && e.rep.isRepetition g.key then
-      let e := e.ev cfg [3, e.ply.toUInt64, g.key, e.rep.table.getD e.rep.index 0]
-        (fun _ => s!"rep {e.ply} {hex16 g.key} {hex16 (e.rep.table.getD e.rep.index 0)}")
-      (0, { e with pvLen := e.pvLen.setIfInBounds e.ply e.ply })
-    else
-    let probed := if e.ply != 0 && !isPv then e.ttProbe cfg g.key depth alpha beta else Gen.UNKNOWN_SCORE
-    if probed != Gen.UNKNOWN_SCORE then
-      let e := e.ev cfg [4, e.ply.toUInt64, g.key, i2w probed] (fun _ => s!"tthit {e.ply} {hex16 g.key} {probed}")
-      (probed, { e with ttHits := e.ttHits + 1 })
-    else
-    let e := { e with pvLen := e.pvLen.setIfInBounds e.ply e.ply }
-    if e.ply >= Gen.MAX_PLY - 1 then (R.evaluate g, e) else
-    let e := e.maybePoll cfg
-    if depth == 0 || g.halfMoves == 100 then quiescence R cfg qFuel g alpha beta e else
-    let e := { e with nodes := e.nodes + 1 }
-    let inCheck := R.inCheck g
-    let nDepth := if inCheck then depth + 1 else depth
-    -- null move pruning
-    let nullOut : Option Int × Env :=
-      if nDepth >= 3 && !inCheck && e.ply > 0 then
-        let c := R.nullMove g
-        let e := { e with ply := e.ply + 1 }
-        let (s, e) := negamax R cfg fuel c (nDepth - 1 - 2) (-beta) (-beta + 1) e
-        let score := -s
-        let e := { e with ply := e.ply - 1 }
-        if e.stopping then (some 0, e)
-        else if score >= beta then (some beta, e)
-        else (none, e)
-      else (none, e)
-    match nullOut with
-    | (some v, e) => (v, e)
-    | (none, e) =>
-      let ms := R.generate g true
-      let e := if e.followPv then enablePvScoring ms e else e
-      let (ms, e) := sortMoves g ms e
-      match moveLoop R cfg (negamax R cfg fuel) g depth nDepth inCheck beta ms alpha .alpha 0 0 e with
-      | (.ret v, e) => (v, e)
-      | (.done ta flag legal, e) =>
-        if legal == 0 then
-          let e := e.ev cfg [5, e.ply.toUInt64, g.key, b2w inCheck]
-            (fun _ => s!"verdict {e.ply} {hex16 g.key} {if inCheck then "mate" else "stalemate"}")
-          (if inCheck then -Gen.MATE_VALUE + e.ply else 0, e)
-        else
-          let e := e.ttRecord cfg g.key ta depth flag
-          (ta, e)
+    if e.ply > 0 && e.rep.isRepetition g.key then repReturn cfg g e
+    else if probeNode cfg g depth alpha beta e != Gen.UNKNOWN_SCORE then ttReturn cfg g (probeNode cfg g depth alpha beta e) e
+    else afterProbe R cfg (negamax R cfg fuel) g depth alpha beta e
 
 def negaFuel : Nat := Gen.MAX_PLY + 2
 
